@@ -896,8 +896,12 @@ ExitStatus Builder::Build(string* err) {
         *err = "subcommand failed";
     } else if (failures_allowed < config_.failures_allowed)
       *err = "cannot make progress due to previous errors";
-    else
+    else {
       *err = "stuck [this is a bug]";
+      // No command failed, so no failure code was recorded: a build that
+      // cannot go on has not succeeded.
+      SetFailureCode(ExitFailure);
+    }
 
     return GetExitCode();
   }
